@@ -85,6 +85,12 @@ def parseTransformer (mode : String) : Option (String → Option String) :=
   else if mode == "err" then some (fun _ => none)
   else match mode.splitOn ":" with
     | ["app", h] => (strOfHex h).map (fun t => fun x => some (x ++ t))
+    | ["ins", pos, h] => do
+      let pos ← pos.toNat?
+      let t ← bytesOfHex h
+      some (fun x =>
+        let b := utf8 x
+        String.fromUTF8? (ByteArray.mk (b.take pos ++ t ++ b.drop pos).toArray))
     | ["sub", a, b] => do
       let a ← strOfHex a
       let b ← strOfHex b
